@@ -58,4 +58,4 @@ package tcp
 //@ func SYNACKBPFFilter
 //@   props C03
 //@   observe BPFFilter
-//@   entry row synack: [call BPFFilter(r) as (f, n)] when ret0 == strcat(f, " and tcp[13] == 18") && ret1 == n -> exit
+//@   entry row synack: [call BPFFilter(r) as (f, n)] when ret0 == f + " and tcp[13] == 18" && ret1 == n -> exit
